@@ -118,3 +118,10 @@ Theorem C10_named_methods_forward_their_parameters :
    ("ComplexRDA", "ComplexCPCCA.__init__", "alpha", "pinned:[0.0, 1.0]"); ("HilbertRDA", "HilbertCPCCA.__init__", "alpha", "pinned:[0.0, 1.0]")]%string.
 Proof. exact (conj ctor_nothing_dropped_or_replaced ctor_pinned_known). Qed.
 Print Assumptions C10_named_methods_forward_their_parameters.
+
+(* each field's pre-processing, pre-reduction and whitening stage takes that field's element of every per-field parameter *)
+Theorem C10_field_stages_take_their_own_parameters :
+  forallb (fun r => let '(_, _, fld, idx) := r in Nat.eqb fld (S idx)) T8fwd.cross_stage_field_indices = true /\
+  List.length T8fwd.cross_stage_field_indices = 22%nat.
+Proof. exact Fwd_tie.cross_stages_take_their_own_field. Qed.
+Print Assumptions C10_field_stages_take_their_own_parameters.
